@@ -683,9 +683,10 @@ impl<T> ValVec32<T> {
             )));
         }
 
-        // SAFETY: Index is bounds checked
+        // SAFETY: Index is bounds checked; the slot holds an initialised element, which is
+        // replaced (and dropped) rather than overwritten in place
         unsafe {
-            ptr::write(self.ptr.as_ptr().add(index as usize), value);
+            drop(ptr::replace(self.ptr.as_ptr().add(index as usize), value));
         }
         Ok(())
     }
